@@ -353,6 +353,23 @@ impl Monitor for C02 {
         if self.mode == 2 {
             cx.summary.count("c02.never_recovers_runs", 1);
             for ((ep, conn), c) in &self.conns {
+                // the simulation may end before this endpoint's (backed-off) deadline is due
+                let local_idle = self.idle_ms.get(*ep).copied().unwrap_or(30_000);
+                let idle = match c.peer_idle_ms {
+                    Some(p) if p > 0 && local_idle > 0 => p.min(local_idle),
+                    Some(p) if p > 0 => p,
+                    _ => local_idle,
+                } * 1000;
+                let hs = self.handshake_ms.get(*ep).copied().unwrap_or(10_000) * 1000;
+                let bound = if c.handshake_complete {
+                    c.idle_base + idle.max(3 * c.pto_max) + SLACK_US
+                } else {
+                    (c.started + hs).max(c.idle_base + idle.max(3 * c.pto_max)) + SLACK_US
+                };
+                if c.closed_at.is_none() && now <= bound {
+                    cx.summary.count("c02.failure_report_not_yet_due_at_end", 1);
+                    continue;
+                }
                 if c.closed_at.is_none() {
                     cx.violate(
                         "C02",
